@@ -14,7 +14,6 @@
 //! Cases of one block share a database; the database a case starts from is a
 //! function of `(sub, block)` only (fresh fixture at block start, deterministic
 //! recreate rule), and `replay` re-runs the block prefix.
-use checks::sqlh::TestDb;
 use std::collections::{BTreeMap, BTreeSet};
 use std::path::PathBuf;
 use std::sync::atomic::{AtomicU64, Ordering};
@@ -1358,28 +1357,20 @@ const ST_NAMES: [&str; 9] = ["cases", "ok_rows", "ok_changed", "err_parse", "err
 
 struct Env {
     scratch: PathBuf,
-    db: Option<TestDb>,
+    db: Option<Tdb>,
+    tpl: PathBuf,
     stats: BTreeMap<&'static str, [u64; 9]>,
     seen: BTreeSet<String>,
     invalid_utf8: u64,
 }
 impl Env {
     fn new(ctx: &Ctx) -> Env {
-        Env { scratch: ctx.scratch.clone(), db: None, stats: BTreeMap::new(), seen: BTreeSet::new(), invalid_utf8: 0 }
+        Env { scratch: ctx.scratch.clone(), db: None, tpl: make_template(&ctx.scratch), stats: BTreeMap::new(), seen: BTreeSet::new(), invalid_utf8: 0 }
     }
     fn fresh(&mut self, rep: &mut Reporter) {
         rep.begin_case("{\"fixture\":true}");
         self.db = None;
-        let t = match TestDb::create(&self.scratch, "db") {
-            Ok(t) => t,
-            Err(e) => fixture_failed(&format!("Database::create: {e}")),
-        };
-        for s in FIXTURE {
-            match do_exec(t.db(), s) {
-                Out::Changed(_) => {}
-                o => fixture_failed(&format!("{s}: {o:?}")),
-            }
-        }
+        let t = Tdb::open_copy(&self.tpl, &self.scratch, "db");
         self.db = Some(t);
     }
     fn st(&mut self, sub: &'static str) -> &mut [u64; 9] {
@@ -1396,6 +1387,68 @@ impl Env {
         }
         rep.count("lex.inputs_invalid_utf8_fed_lossy", self.invalid_utf8);
         self.invalid_utf8 = 0;
+    }
+}
+/// A database directory with its (optional) open handle; dropping closes the
+/// handle first and then removes the directory.
+struct Tdb {
+    db: Option<Database>,
+    dir: PathBuf,
+}
+impl Tdb {
+    fn db(&self) -> &Database {
+        self.db.as_ref().expect("database is open")
+    }
+    /// Fresh copy of the template database, opened.  (Copy + open costs ~1.4 ms,
+    /// re-running the fixture statements ~4 ms.)
+    fn open_copy(tpl: &std::path::Path, base: &std::path::Path, name: &str) -> Tdb {
+        let dir = base.join(name);
+        let _ = std::fs::remove_dir_all(&dir);
+        copy_dir(tpl, &dir);
+        match vcore::catch(|| Database::open(&dir).map_err(|e| format!("{e:#}"))) {
+            Ok(Ok(db)) => Tdb { db: Some(db), dir },
+            Ok(Err(e)) => fixture_failed(&format!("Database::open of the template copy: {e}")),
+            Err(p) => fixture_failed(&format!("Database::open of the template copy panicked: {p}")),
+        }
+    }
+}
+impl Drop for Tdb {
+    fn drop(&mut self) {
+        let db = self.db.take();
+        let _ = vcore::catch(move || drop(db));
+        let _ = std::fs::remove_dir_all(&self.dir);
+    }
+}
+/// The fixture database, built once per process with the real API and closed.
+fn make_template(scratch: &std::path::Path) -> PathBuf {
+    let dir = scratch.join("tpl");
+    let _ = std::fs::remove_dir_all(&dir);
+    std::fs::create_dir_all(scratch).ok();
+    let db = match vcore::catch(|| Database::create(&dir).map_err(|e| format!("{e:#}"))) {
+        Ok(Ok(db)) => db,
+        o => fixture_failed(&format!("Database::create: {:?}", o.map(|r| r.map(|_| ())))),
+    };
+    for s in FIXTURE {
+        match do_exec(&db, s) {
+            Out::Changed(_) => {}
+            o => fixture_failed(&format!("{s}: {o:?}")),
+        }
+    }
+    if let Err(p) = vcore::catch(move || drop(db)) {
+        fixture_failed(&format!("drop of the template handle panicked: {p}"));
+    }
+    dir
+}
+fn copy_dir(from: &std::path::Path, to: &std::path::Path) {
+    std::fs::create_dir_all(to).expect("mkdir");
+    for e in std::fs::read_dir(from).expect("read_dir").flatten() {
+        let p = e.path();
+        let q = to.join(e.file_name());
+        if p.is_dir() {
+            copy_dir(&p, &q);
+        } else {
+            std::fs::copy(&p, &q).expect("copy");
+        }
     }
 }
 fn fixture_failed(why: &str) -> ! {
@@ -1436,18 +1489,9 @@ fn exec_params(db: &Database, sql: &str, params: &[OwnedValue], mode: u8) -> Out
 }
 
 /// Run one API op sequence on its own fresh database.
-fn run_api(scratch: &std::path::Path, ops: &[u8]) -> Vec<(String, Out)> {
+fn run_api(tpl: &std::path::Path, scratch: &std::path::Path, ops: &[u8]) -> Vec<(String, Out)> {
     let mut outs: Vec<(String, Out)> = Vec::new();
-    let mut t = match TestDb::create(scratch, "apidb") {
-        Ok(t) => t,
-        Err(e) => fixture_failed(&format!("Database::create: {e}")),
-    };
-    for s in FIXTURE {
-        match do_exec(t.db(), s) {
-            Out::Changed(_) => {}
-            o => fixture_failed(&format!("{s}: {o:?}")),
-        }
-    }
+    let mut t = Tdb::open_copy(tpl, scratch, "apidb");
     let dir = t.dir.clone();
     let mut handles: Vec<Database> = vec![t.db.take().unwrap()];
     let mut prepared: Option<PreparedStatement> = None;
@@ -1570,7 +1614,7 @@ fn run_api(scratch: &std::path::Path, ops: &[u8]) -> Vec<(String, Out)> {
 /// Execute every call of a case; returns (call label, outcome) in order.
 fn execute_act(env: &mut Env, act: &Act) -> Vec<(String, Out)> {
     if let Some(ops) = &act.api {
-        return run_api(&env.scratch.clone(), ops);
+        return run_api(&env.tpl.clone(), &env.scratch.clone(), ops);
     }
     let mut outs: Vec<(String, Out)> = Vec::new();
     let lossy;
